@@ -166,6 +166,20 @@ def cell_key(c):
         return (1, int(c))
     if isinstance(c, (int, float)):
         return (2, c)
+    if isinstance(c, str) and len(c) > 2 and c[1] == ":":
+        # typed cells that are not plain strings: order numerically where the type is numeric
+        if c[0] == "d":
+            from decimal import Decimal
+            try:
+                return (2, Decimal(c[2:]))
+            except Exception:
+                pass
+        if c[0] == "f":
+            try:
+                f = float(c[2:])
+                return (2, f) if f == f else (2.5, 0)
+            except Exception:
+                pass
     return (3, str(c))
 
 
